@@ -23,12 +23,13 @@ import (
 //	own      the site sits in a method of V, inherited by K extends V; steps run it on a V or
 //	         on a K object (both are allowed for every modifier).
 //
-// Two verdicts are computed per step: the rule table's (the scope is the class the code is
-// written in) and the one of the interpreter's current scoping (the scope is the runtime
-// class of $this, and functions called from a method inherit it), which is what the open
-// findings private-member-usable-from-class-hierarchy / callee-inherits-callers-class-scope
-// describe. A step is judged only where both agree (and the access is not the open
-// "protected from an ancestor" case); the other steps are executed only to warm the site.
+//	targets  the site sits in a method of V; steps pass it a V, a K (extends V) or an X object,
+//	         X being an unrelated class that declares members of the same names: the same
+//	         site is allowed on V/K targets and forbidden on X targets.
+//
+// The verdict of every step is the rule table's: the scope is the class the code is written
+// in (T0, none, V). Only the "protected member reached from a strict ancestor of the
+// declaring class" steps (inherit arrangement, protected) stay open, as in the matrix.
 
 type sharedForm struct {
 	kind, op, path string
@@ -55,17 +56,18 @@ var sharedArrs = []sharedArr{
 	{"func", []string{"in-out", "out-in", "in-out-in", "out-in-out", "in-out2"}, "outside", "none"},
 	{"closure", []string{"in-out", "out-in", "in-out-in", "out-in-out"}, "outside", "none"},
 	{"own", []string{"V-K", "K-V", "V-K-V"}, "same", "same"},
+	{"targets", []string{"V-X", "X-V", "V-X-V", "X-V-X", "K-X", "V-X-X"}, "same-site-other-class-target", "same"},
 }
 
 type sharedFixture struct {
-	Idx              int
-	T0, V, W, K, Pfx string
+	Idx                 int
+	T0, V, W, K, X, Pfx string
 }
 
 func newSharedFixture(e *lib.Env, idx int) *sharedFixture {
 	r := e.Rand(fmt.Sprintf("sharedfixture/%d", idx))
 	used := map[string]bool{}
-	return &sharedFixture{Idx: idx, T0: genName(r, used, true), V: genName(r, used, true), W: genName(r, used, true), K: genName(r, used, true),
+	return &sharedFixture{Idx: idx, T0: genName(r, used, true), V: genName(r, used, true), W: genName(r, used, true), K: genName(r, used, true), X: genName(r, used, true),
 		Pfx: strings.ToLower(genName(r, used, false))}
 }
 
@@ -85,6 +87,9 @@ func genSharedCases(sf *sharedFixture) []*Case {
 	var out []*Case
 	for _, arr := range sharedArrs {
 		for _, f := range sharedForms {
+			if arr.name == "targets" && f.path == "classname" {
+				continue // the form does not depend on the target object
+			}
 			for _, seq := range arr.seqs {
 				for _, mod := range mods {
 					out = append(out, sf.build(arr, f, seq, mod))
@@ -105,6 +110,30 @@ func (sf *sharedFixture) build(arr sharedArr, f sharedForm, seq, mod string) *Ca
 		body = pre + " " + expr + " = $w; return \"w\";"
 	}
 
+	members := func(b *strings.Builder, off int) {
+		for _, k := range kinds {
+			for _, m := range mods {
+				n, v := sf.name(k, m), sharedValue(k, m)+off
+				switch k {
+				case "iprop":
+					fmt.Fprintf(b, "  %s $%s = %d;\n", m, n, v)
+				case "sprop":
+					fmt.Fprintf(b, "  %s static $%s = %d;\n", m, n, v)
+				case "const":
+					fmt.Fprintf(b, "  %s const %s = %d;\n", m, n, v)
+				case "imeth":
+					fmt.Fprintf(b, "  %s function %s() { echo \"CALLED|%s\\n\"; return %d; }\n", m, n, n, v)
+				case "smeth":
+					fmt.Fprintf(b, "  %s static function %s() { echo \"CALLED|%s\\n\"; return %d; }\n", m, n, n, v)
+				}
+			}
+		}
+		ip := func(m string) string { return sf.name("iprop", m) }
+		sp := func(m string) string { return sf.name("sprop", m) }
+		fmt.Fprintf(b, "  public function obs() { return $this->%s . \",\" . $this->%s . \",\" . $this->%s; }\n", ip("public"), ip("protected"), ip("private"))
+		fmt.Fprintf(b, "  public static function sobs() { return self::$%s . \",\" . self::$%s . \",\" . self::$%s; }\n", sp("public"), sp("protected"), sp("private"))
+	}
+
 	var b strings.Builder
 	b.WriteString("<?php\n")
 	fmt.Fprintf(&b, "class %s {\n", sf.T0)
@@ -113,74 +142,67 @@ func (sf *sharedFixture) build(arr sharedArr, f sharedForm, seq, mod string) *Ca
 	}
 	b.WriteString("}\n")
 	fmt.Fprintf(&b, "class %s extends %s {\n", sf.V, sf.T0)
-	for _, k := range kinds {
-		for _, m := range mods {
-			n, v := sf.name(k, m), sharedValue(k, m)
-			switch k {
-			case "iprop":
-				fmt.Fprintf(&b, "  %s $%s = %d;\n", m, n, v)
-			case "sprop":
-				fmt.Fprintf(&b, "  %s static $%s = %d;\n", m, n, v)
-			case "const":
-				fmt.Fprintf(&b, "  %s const %s = %d;\n", m, n, v)
-			case "imeth":
-				fmt.Fprintf(&b, "  %s function %s() { echo \"CALLED|%s\\n\"; return %d; }\n", m, n, n, v)
-			case "smeth":
-				fmt.Fprintf(&b, "  %s static function %s() { echo \"CALLED|%s\\n\"; return %d; }\n", m, n, n, v)
-			}
-		}
-	}
-	ip := func(m string) string { return sf.name("iprop", m) }
-	sp := func(m string) string { return sf.name("sprop", m) }
-	fmt.Fprintf(&b, "  public function obs() { return $this->%s . \",\" . $this->%s . \",\" . $this->%s; }\n", ip("public"), ip("protected"), ip("private"))
-	fmt.Fprintf(&b, "  public static function sobs() { return self::$%s . \",\" . self::$%s . \",\" . self::$%s; }\n", sp("public"), sp("protected"), sp("private"))
+	members(&b, 0)
 	switch arr.name {
 	case "func":
 		b.WriteString("  public function inside($t, $w) { return sharedsite($t, $w); }\n")
 	case "closure":
 		b.WriteString("  public function inside($f, $t, $w) { return $f($t, $w); }\n")
-	case "own":
+	case "own", "targets":
 		fmt.Fprintf(&b, "  public function site($t, $w) { %s }\n", body)
 	}
 	b.WriteString("}\n")
 	fmt.Fprintf(&b, "class %s extends %s { }\n", sf.W, sf.T0)
 	fmt.Fprintf(&b, "class %s extends %s { }\n", sf.K, sf.V)
+	fmt.Fprintf(&b, "class %s {\n", sf.X)
+	members(&b, 1000)
+	b.WriteString("}\n")
 	if arr.name == "func" {
 		fmt.Fprintf(&b, "function sharedsite($t, $w) { %s }\n", body)
 	}
-	fmt.Fprintf(&b, "$v = new %s(); $v2 = new %s(); $w0 = new %s(); $k = new %s();\n", sf.V, sf.V, sf.W, sf.K)
+	fmt.Fprintf(&b, "$v = new %s(); $v2 = new %s(); $w0 = new %s(); $k = new %s(); $x = new %s();\n", sf.V, sf.V, sf.W, sf.K, sf.X)
 	if arr.name == "closure" {
 		fmt.Fprintf(&b, "$f = function($t, $w) { %s };\n", body)
 	}
 
 	type step struct {
 		scope    string
-		tgt      string // $v or $v2
-		judged   bool
+		tgt      string // variable holding the target object
+		tgtClass string // class whose static observer shows the target's static state
+		open     bool
 		allowed  bool
+		wantV    string
 		writeVal int
 	}
 	var steps []step
 	for i, tok := range strings.Split(seq, "-") {
-		st := step{scope: strings.TrimSuffix(tok, "2"), tgt: "$v", writeVal: 7771 + i}
+		st := step{scope: strings.TrimSuffix(tok, "2"), tgt: "$v", tgtClass: sf.V, writeVal: 7771 + i, wantV: fmt.Sprint(sharedValue(f.kind, mod))}
 		if strings.HasSuffix(tok, "2") {
 			st.tgt = "$v2"
 		}
-		// rule table (lexical scope) and current interpreter scoping (runtime scope)
-		var lexical, open, dynamic bool
+		// rule table: the scope is the class the site is written in
 		switch arr.name {
 		case "inherit": // code of T0, a strict ancestor of the declaring class V
-			lexical = mod == "public"
-			open = mod == "protected"
-			dynamic = mod == "public" || st.scope == "V"
+			st.allowed = mod == "public"
+			st.open = mod == "protected"
 		case "func", "closure": // code outside any class
-			lexical = mod == "public"
-			dynamic = mod == "public" || st.scope == "in"
-		case "own": // code of V itself
-			lexical, dynamic = true, true
+			st.allowed = mod == "public"
+		case "own": // code of V itself, member declared in V
+			st.allowed = true
+		case "targets": // code of V; the member is V's (targets V, K) or X's (target X)
+			st.allowed = true
+			switch st.scope {
+			case "K":
+				st.tgt = "$k"
+			case "X":
+				st.tgt, st.tgtClass = "$x", sf.X
+				st.allowed = mod == "public"
+				st.wantV = fmt.Sprint(sharedValue(f.kind, mod) + 1000)
+			}
 		}
-		st.judged = !open && lexical == dynamic
-		st.allowed = lexical
+		if f.op == "write" {
+			st.wantV = "w"
+		}
 		steps = append(steps, st)
 	}
 	for i, st := range steps {
@@ -198,6 +220,8 @@ func (sf *sharedFixture) build(arr sharedArr, f sharedForm, seq, mod string) *Ca
 				recv = "$k"
 			}
 			call = fmt.Sprintf("%s->site(%s, %d)", recv, st.tgt, st.writeVal)
+		case "targets":
+			call = fmt.Sprintf("$v2->site(%s, %d)", st.tgt, st.writeVal)
 		case "func":
 			if st.scope == "in" {
 				call = fmt.Sprintf("$v->inside(%s, %d)", st.tgt, st.writeVal)
@@ -211,23 +235,21 @@ func (sf *sharedFixture) build(arr sharedArr, f sharedForm, seq, mod string) *Ca
 				call = fmt.Sprintf("$f(%s, %d)", st.tgt, st.writeVal)
 			}
 		}
-		fmt.Fprintf(&b, "echo \"STEP|%d\\n\";\necho \"B|\", %s->obs(), \"|\", %s::sobs(), \"\\n\";\n", i+1, st.tgt, sf.V)
+		fmt.Fprintf(&b, "echo \"STEP|%d\\n\";\necho \"B|\", %s->obs(), \"|\", %s::sobs(), \"\\n\";\n", i+1, st.tgt, st.tgtClass)
 		fmt.Fprintf(&b, "$st = \"denied\"; $r = \"-\";\ntry { $r = %s; $st = \"ok\"; } catch (\\Throwable $e) { $st = \"denied\"; }\n", call)
 		b.WriteString("echo \"R|\", $st, \"|\"; echo $r; echo \"\\n\";\n")
-		fmt.Fprintf(&b, "echo \"A|\", %s->obs(), \"|\", %s::sobs(), \"\\n\";\n", st.tgt, sf.V)
+		fmt.Fprintf(&b, "echo \"A|\", %s->obs(), \"|\", %s::sobs(), \"\\n\";\n", st.tgt, st.tgtClass)
 	}
 	b.WriteString("echo \"END\\n\";\n")
 
-	wantV := fmt.Sprint(sharedValue(f.kind, mod))
 	anyJudged := false
 	for _, st := range steps {
-		if st.judged {
+		if !st.open {
 			anyJudged = true
 		}
 	}
 	isCtl := mod == "public"
 	judge := func(o *Obs) (string, string) {
-		// split the output into steps
 		type stepObs struct {
 			r      []string
 			called []string
@@ -269,36 +291,28 @@ func (sf *sharedFixture) build(arr sharedArr, f sharedForm, seq, mod string) *Ca
 				return "fatal", fmt.Sprintf("step %d printed no result", i+1)
 			}
 			if isCtl { // control: every step must work
-				want := wantV
-				if f.op == "write" {
-					want = "w"
-				}
-				if g.r[0] != "ok" || g.r[1] != want {
+				if g.r[0] != "ok" || g.r[1] != st.wantV {
 					return "block", fmt.Sprintf("public control, step %d (%s): %v", i+1, st.scope, g.r)
 				}
 				continue
 			}
-			if !st.judged {
+			if st.open {
 				continue
 			}
 			if st.allowed {
-				want := wantV
-				if f.op == "write" {
-					want = "w"
-				}
 				if g.r[0] == "denied" {
-					return "block", fmt.Sprintf("step %d (scope %s) of sequence %s: an access the rule table allows was denied", i+1, st.scope, seq)
+					return "block", fmt.Sprintf("step %d (%s) of sequence %s: an access the rule table allows was denied", i+1, st.scope, seq)
 				}
-				if g.r[1] != want {
-					return "wrong", fmt.Sprintf("step %d (scope %s) of sequence %s: got %v want %s", i+1, st.scope, seq, g.r, want)
+				if g.r[1] != st.wantV {
+					return "wrong", fmt.Sprintf("step %d (%s) of sequence %s: got %v want %s", i+1, st.scope, seq, g.r, st.wantV)
 				}
 				continue
 			}
 			if g.r[0] == "ok" {
-				return "leak", fmt.Sprintf("step %d (scope %s) of sequence %s: the same access site that was (or will be) used by an allowed scope let the forbidden scope %s the %s %s member (value %s)", i+1, st.scope, seq, f.op, mod, f.kind, g.r[1])
+				return "leak", fmt.Sprintf("step %d (%s) of sequence %s: the access site let forbidden code %s the %s %s member (value %s); other steps of the sequence run the same site", i+1, st.scope, seq, f.op, mod, f.kind, g.r[1])
 			}
 			if len(g.called) > 0 || g.before != g.after {
-				return "effect", fmt.Sprintf("step %d (scope %s) of sequence %s was denied but had an effect: called=%v before=%s after=%s", i+1, st.scope, seq, g.called, g.before, g.after)
+				return "effect", fmt.Sprintf("step %d (%s) of sequence %s was denied but had an effect: called=%v before=%s after=%s", i+1, st.scope, seq, g.called, g.before, g.after)
 			}
 		}
 		return "", ""
